@@ -8,8 +8,9 @@ _TEXT_C05 = ("independent reader part: every file the real writer reports comple
              "GZIP/ZSTD through zlib/libzstd called directly by the harness; levels by the Spec RLE-hybrid decoder; true "
              "page-header statistics) and must return exactly the table the write history intends; each history is also written "
              "twice and compared byte for byte. Histories respect the documented precondition of carquet_writer_write_batch (all "
-             "columns of a row group receive the same number of rows). Not checked: total_uncompressed_size / "
-             "total_byte_size (F23, carquet writes compressed sizes there).")
+             "columns of a row group receive the same number of rows). Since fix F23 the reader also checks the byte sizes the "
+             "metadata state: ColumnMetaData.total_uncompressed_size = sum over the chunk's pages of page-header length + "
+             "uncompressed_page_size, RowGroup.total_byte_size = sum of the chunks' total_uncompressed_size (component f23).")
 _TEXT_C06 = ("files written by Spec.File.write, a specification-following reference writer in Lean (dictionary pages with "
              "PLAIN_DICTIONARY / RLE_DICTIONARY data pages and PLAIN fallback pages in both orders, dictionary offset present "
              "or absent, duplicate and unused dictionary entries, any page split, level and index streams in any mix of RLE and "
